@@ -71,7 +71,7 @@ func init() {
 		ID: "T01", NeedCG: true, Quick: cfgAMD, Thorough: cfgAll,
 		Explanation: "scratch",
 		Run: func(w *World, r *Report, tier string) {
-			guard(r, "DETERM", func() { ruleDETERM(w, r) })
+			guard(r, "RACE", func() { ruleRACE(w, r) })
 		},
 	})
 }
